@@ -130,6 +130,8 @@ class Opts:
         self.sub_leaf_prob = 0.0        # a leaf is a user-defined subclass of one of `sub_bases` (model kind 'sub')
         self.sub_bases = ['date', 'datetime']
         self.enum_words_prob = 0.0      # an Enum leaf is a "word" Enum: realistic member names, values that read like (other) members' names
+        self.nt_weight = 1              # weight of NamedTuple among the composite kinds (1: the historical weight; no extra RNG draw)
+        self.nt_default_prob = 0.3      # a NamedTuple field (and every one after it) has a default
         self.falsy_prob = 0.0           # Optional[..] positions (Optional[Any] included) prefer falsy-but-valid values; Literal / Enum get falsy members
         self.__dict__.update(kw)
 
@@ -264,7 +266,7 @@ def gen_type(rng, depth, o: Opts, hashable=False):
     if o.allow_union:
         kinds += ['union']
     if o.allow_nt:
-        kinds += ['namedtuple']
+        kinds += ['namedtuple'] * o.nt_weight
     if o.allow_td:
         kinds += ['typeddict']
     if o.allow_cls:
@@ -302,7 +304,7 @@ def gen_type(rng, depth, o: Opts, hashable=False):
         fields, seen_default = [], False
         for _ in range(n):
             d = None
-            if seen_default or rng.random() < 0.3:
+            if seen_default or rng.random() < o.nt_default_prob:
                 d = ['lit', rng.choice([0, 'dflt', None, 2.5])]
                 seen_default = True
             fields.append([field_name(rng, used), gen_type(rng, depth - 1, o) if d is None else _ty_for_lit(d[1]), d])
